@@ -132,7 +132,7 @@ func (s *cstate) arrive(src int, n N) []cbranch {
 			c.subbed[c.cur] = true
 			return one()
 		}
-	case "CombineLatest2", "CombineLatest3", "CombineLatest4", "CombineLatest5", "CombineLatestAll":
+	case "CombineLatest2", "CombineLatest3", "CombineLatest4", "CombineLatest5", "CombineLatestAll", "CombineLatestAny":
 		switch n.K {
 		case 'N':
 			c.has[src], c.latest[src] = true, n.V
@@ -352,7 +352,7 @@ func (s *cstate) arrive(src int, n N) []cbranch {
 	panic("no arrival model for " + s.op)
 }
 
-var c05Ops = []string{"Merge", "MergeAll", "MergeWith", "MergeMapSrc", "Concat", "ConcatAll", "CombineLatest2", "CombineLatest3", "CombineLatestAll", "Zip2", "Zip3", "Zip4", "Zip5", "Zip6", "Zip", "ZipAll", "CombineLatest4", "CombineLatest5", "MergeWith3", "RaceWith", "ConcatWith", "Race", "Amb", "TakeUntil", "SkipUntil", "BufferWhen", "WindowWhen", "SampleWhen", "ThrottleWhen"}
+var c05Ops = []string{"Merge", "MergeAll", "MergeWith", "MergeMapSrc", "Concat", "ConcatAll", "CombineLatest2", "CombineLatest3", "CombineLatestAll", "CombineLatestAny", "Zip2", "Zip3", "Zip4", "Zip5", "Zip6", "Zip", "ZipAll", "CombineLatest4", "CombineLatest5", "MergeWith3", "RaceWith", "ConcatWith", "Race", "Amb", "TakeUntil", "SkipUntil", "BufferWhen", "WindowWhen", "SampleWhen", "ThrottleWhen"}
 
 type arrival struct {
 	Src  int
